@@ -230,9 +230,15 @@ def model_steps(texts):
 
 def poly_ok(vals, sizes):
     """vals[i] = cost at sizes[i] (doubling). polynomial iff no doubling multiplies the cost by more than 2^3.5"""
-    for a, b in zip(vals, vals[1:]):
-        if a > 50 and b / a > 11.5:
-            return False
+    # pump texts are random, so the counts are noisy: compare every new maximum with the previous maximum
+    # (an envelope), allowing 2^3.5 per doubling of the size between the two
+    import math
+    best, best_n = vals[0], sizes[0]
+    for n, b in zip(sizes[1:], vals[1:]):
+        if b > best:
+            if best > 50 and b / best > 11.5 ** math.log2(n / best_n):
+                return False
+            best, best_n = b, n
     return True
 
 
